@@ -245,17 +245,20 @@ def main(run):
                 replay_only = ln[len("case: "):].strip()
         if replay_only is None:
             raise vlib.BuildError("no 'case:' line in " + run.replay)
-        (exc if replay_only.startswith("exc") else exe).append((replay_only, "replay", True))
+        if not replay_only.startswith("exw"):
+            (exc if replay_only.startswith("exc") else exe).append((replay_only, "replay", True))
     for ln in ([] if replay_only else vlib.read_corpus("C07")):
         (exc if ln.startswith("exc") else exe).append((ln, "corpus", True))
     for name, ins in ([] if replay_only else G.templates()):
         exc.append((G.exc_line(ins), "template", True))
         exc.append((G.exc_line(ins, mid0=65533), "template", True))      # mid wraps inside the case
+        exc.append((G.exc_line(ins, mid0=65535), "template", True))      # first request has mid 0
+        exc.append((G.exc_line([x.replace(":7:", ":0:") for x in ins], mid0=6), "template", True))  # peer mid 0
     for i in range(0 if replay_only else 6000 if quick else 120000):
         honest = r.random() < 0.6
         maxr = r.choice([4, 4, 4, 1, 2, 7])
         exc.append((G.exc_line(["H%d" % r.choice([1, 1, 2, 3, 4, 5, 6, 7])] + G.random_exc(r, honest, maxr), maxr=maxr,
-                               mid0=r.choice([100, 65530, 65534, 0, 7, 999]),
+                               mid0=r.choice([100, 65530, 65534, 65535, 0, 7, 999]),
                                tok0=r.choice([0, 0, 254, 65534])),
                     "random-honest" if honest else "random-arbitrary", honest))
     nfate = 6 if quick else 8
@@ -276,15 +279,17 @@ def main(run):
         reqs = [(r.choice(G.STYLES), r.choice([1, 1, 1, 0]), r.choice([0, 0, 5, 400, 1800])) for _ in range(nreq)]
         fates = G.random_fates(r, r.choice([4, 8, 12, 20]), heavy=(r.random() < 0.25))
         exe.append((G.exe_line(kind, reqs, fates, seed=r.randrange(1, 1 << 30), method=r.choice([1, 1, 2, 3, 4]),
-                               cmid0=r.choice([100, 65533, 41527, 41528, 41529]),
+                               cmid0=r.choice([100, 65533, 65535, 41527, 41528, 41529]), smid0=r.choice([-1, -1, 65535, 99, 100]),
                                adelay=r.choice([1, 300, 1200, 2500, 4000]),
                                dflt=r.choice([0, 3, 40, 900]), nstart=r.choice([0, 16, 16])),
                     "random-" + kind, True))
 
     # ------------------------------------------------------------ message-id wrap (findings C07-F5a/b)
-    if not replay_only:
+    if not replay_only or replay_only.startswith("exw"):
         wl = ["exw 65535 100 0", "exw 65534 100 0", "exw 65535 40000 0", "exw 300 65400 0",
               "exw 65535 100 1", "exw 65534 100 1", "exw 300 65400 1"]
+        if replay_only:
+            wl = [replay_only]
         wm, wc, _ = run_both(model, drv, wl)
         for ln, a, b in zip(wl, wm, wc):
             run.count(ln, True)
